@@ -15,6 +15,8 @@ rule-allowed packet that created it and the reload epoch in which it was last va
   a packet that passed although no rule of its direction allows it must belong to a flow that is live
   (C18: tracked, not expired — with a routine cache: or passed within the current cache tick) and valid
   under the current rules in its original direction (C19);
+  a tracked flow that was never idle for its timeout must still pass (C18 `c18-live-flow-dropped`; with a routine
+  cache of period d the guaranteed timeout is the configured one minus the part of the cache tick already elapsed);
   a live flow whose original direction is still allowed must not be cut by a reload (C19) — except that the
   65 536th reload does cut it (known finding F16, class `c19-version-wrap-conntrack-reset`).
 -/
@@ -61,6 +63,24 @@ def step (s : St) (args : List String) (impl : String) : St × Out :=
         else if allowed then
           setFlow s.flows { pkt := p, expires := now + timeout, lastPass := now, incoming := inc, epoch := s.epoch }
         else dropFlow s.flows p
+      -- liveness side: `sure` holds, per tuple, a lower bound of the entry's `Expires` (every pass through conntrack
+      -- or a rule sets now + timeout; a routine-cache hit refreshes nothing, but then the entry was refreshed
+      -- earlier in the same cache tick)
+      let sureFlow := findFlow s.sure p
+      let sureLive := match sureFlow with
+        | some f => decide (now < f.expires)
+                      && (f.epoch == s.epoch || Spec.Fw.allow s.cfg s.rules p f.incoming h.peer)
+        | none => false
+      let lower := if s.cachePeriod == 0 then now + timeout else (now / s.cachePeriod) * s.cachePeriod + timeout
+      let sure :=
+        if !addrOK then s.sure
+        else if sureLive then
+          match sureFlow with
+          | some f => setFlow s.sure { f with expires := lower, lastPass := now, epoch := s.epoch }
+          | none => s.sure
+        else if allowed then
+          setFlow s.sure { pkt := p, expires := lower, lastPass := now, incoming := inc, epoch := s.epoch }
+        else dropFlow s.sure p
       let lost := findFlow s.wrapLost p
       let wrapLost := if addrOK && allowed then dropFlow s.wrapLost p else s.wrapLost
       let verdict :=
@@ -70,12 +90,14 @@ def step (s : St) (args : List String) (impl : String) : St × Out :=
           | some f =>
             if !fresh then s!"bad c18-expired-flow-honoured idle={now - f.lastPass}"
             else "bad c19-stale-flow-not-revalidated"
+        else if impl == "norule" && addrOK && sureLive then
+          -- a tracked flow that was never idle for its timeout (and that the rules still allow) was dropped
+          (match sureFlow with
+           | some f => if f.epoch != s.epoch then "bad c19-flow-cut-after-reload"
+                       else s!"bad c18-live-flow-dropped idle={now - f.lastPass}"
+           | none => "ok")
         else if impl == "norule" && addrOK && s.cachePeriod == 0 then
-          if fresh && valid then
-            (match flow with
-             | some f => if f.epoch != s.epoch then "bad c19-flow-cut-after-reload" else "ok"
-             | none => "ok")
-          else match lost with
+          match lost with
             | some f =>
               if decide (now < f.expires) && Spec.Fw.allow s.cfg s.rules p f.incoming h.peer
               then "bad c19-version-wrap-conntrack-reset" else "ok"
@@ -93,7 +115,7 @@ def step (s : St) (args : List String) (impl : String) : St × Out :=
            | some f => if !fresh then ":expired" else if !valid then ":stale" else ""
            | none => "")
         else ""
-      ({ s with sys := sys, flows := flows, wrapLost := wrapLost },
+      ({ s with sys := sys, flows := flows, sure := sure, wrapLost := wrapLost },
        { model := showVerdict v, verdict := verdict, tag := "drop:" ++ showVerdict v ++ how ++ why })
     | _, _, _ => (s, badOp)
   | ["version", v] =>
@@ -127,6 +149,7 @@ def step (s : St) (args : List String) (impl : String) : St × Out :=
         let live := s.flows.filter (fun f => decide (s.sys.now < f.expires))
         ({ s with sys := sys, dlca := d, rules := rules, staged := [], lastLoad := some lc, epoch := s.epoch + 1,
                   flows := if wrapped then [] else s.flows,
+                  sure := if wrapped then [] else s.sure,
                   wrapLost := if wrapped then live else s.wrapLost },
          { model := s!"reloaded {sys.fw.rulesVersion}", tag := if wrapped then "reload:wrap" else "reload:changed" })
     | _, _, _, _ => (s, badOp)
